@@ -58,6 +58,23 @@ class ApiWorld(World):
         self.current_node = None
         self.clock_reads = 0
 
+    def status_value(self, outcome):
+        """the error a replica answers with: a Status whose code is the named variant ('err' = the first one)"""
+        st = [n for n in self.facts.adts if n.startswith('datacake_rpc::') and n.endswith('::Status')]
+        if len(st) != 1:
+            return ('opaque', 'status')
+        a = self.facts.adts[st[0]]
+        cells = []
+        for f in a['variants'][0]['fields']:
+            ea = self.facts.adts.get(ty_head(f['ty']))
+            if ea is not None and ea['kind'] == 'enum':
+                names = [v['name'] for v in ea['variants']]
+                idx = names.index(outcome) if outcome in names else 0
+                cells.append(Cell(('adt', ty_head(f['ty']), idx, [])))
+            else:
+                cells.append(Cell(('opaque', 'status-' + f['name'])))
+        return ('adt', st[0], 0, cells)
+
     def hook(self, world, interp, name, args, t, body):
         seg = last_seg(name)
         if name.endswith('::select_nodes') and name.startswith('datacake_node::'):
@@ -114,7 +131,7 @@ class ApiWorld(World):
             node = self.current_node
             self.events.append(('remote', node, msg[1].rsplit('::', 1)[-1] if msg and msg[0] == 'adt' else '?', tuple(info['keys']), tuple(sorted(set(info['ts'])))))
             outcome = self.plan['remote'].get(node, 'ok')
-            return ('future', 'ready', ok(('opaque', 'reply-view')) if outcome == 'ok' else err(('opaque', 'status')))
+            return ('future', 'ready', ok(('opaque', 'reply-view')) if outcome == 'ok' else err(self.status_value(outcome)))
         if 'rkyv_tooling::view::DataView' in (t.get('resolved') or name):
             ty = body.local_ty(t['dest']['l']) if not t['dest']['p'] else ''
             v = ('opaque', 'archived-reply')
@@ -181,6 +198,10 @@ def check_api(ctx, facts, rule):
             ('the first replica fails', {'select': 'ok', 'local': 'ok', 'remote': {'r1': 'err', 'r2': 'ok'}}),
             ('the second replica fails', {'select': 'ok', 'local': 'ok', 'remote': {'r1': 'ok', 'r2': 'err'}}),
             ('both replicas fail', {'select': 'ok', 'local': 'ok', 'remote': {'r1': 'err', 'r2': 'err'}})]
+    # whatever a replica's error says (unknown service, internal error, bad payload, connection lost, timeout), it did not acknowledge
+    st_ = [n for n in facts.adts if n.startswith('datacake_rpc::') and n.endswith('::ErrorCode')]
+    for code in ([v['name'] for v in facts.adts[st_[0]]['variants']] if len(st_) == 1 else []):
+        SCEN.append(('the second replica answers with the error %s' % code, {'select': 'ok', 'local': 'ok', 'remote': {'r1': 'ok', 'r2': code}}))
     try:
         paths = find_paths(facts)
         if set(paths) != set(METHODS):
